@@ -22,6 +22,13 @@ def isBurst (w : Nat) (d d' : List UInt8) : Bool :=
    | some a, some b => b < a + w
    | _, _ => false)
 
+/-- bytes from bits, LSB first within each byte (inverse of `Spec.Crc32.bits`) -/
+def packBits : List Bool → List UInt8
+  | b0 :: b1 :: b2 :: b3 :: b4 :: b5 :: b6 :: b7 :: rest =>
+    UInt8.ofNat ((if b0 then 1 else 0) + (if b1 then 2 else 0) + (if b2 then 4 else 0) + (if b3 then 8 else 0) +
+      (if b4 then 16 else 0) + (if b5 then 32 else 0) + (if b6 then 64 else 0) + (if b7 then 128 else 0)) :: packBits rest
+  | _ => []
+
 def handle (l : Line) : Option Verdict :=
   match l.op with
   | "crc" => some <|
@@ -47,6 +54,22 @@ def handle (l : Line) : Option Verdict :=
                  ("burst_detected", r != r2)]
       else .bad "crc_dmg: d2 is not a <=32-bit burst damage of data"
     | _, _, _, _ => .bad "crc_dmg args"
+  | "pgdmg" => some <|
+    -- a page body of a carquet-written file, its stored CRC, and a damage pattern; see harness/ops_pagecrc.c
+    match l.inHex "body", l.inNat "crc", l.inNat "start", l.inHex "mask", l.outInt "clean", l.outInt "von" with
+    | some body, some crc, some start, some mask, some clean, some von =>
+      let maskBits := Spec.Crc32.bits mask
+      let dmgBits := (Spec.Crc32.bits body).zipIdx.map (fun p =>
+        if start ≤ p.2 && p.2 < start + maskBits.length then p.1 != maskBits.getD (p.2 - start) false else p.1)
+      let dmg := packBits dmgBits
+      let changed := dmg != body
+      verdict [("stored_crc_is_model_crc", (Impl.Crc32.crc32 body).toNat == crc),
+               ("damage_is_burst", !changed || isBurst 32 body dmg)]
+              [("stored_crc_is_ieee", (Spec.Crc32.crc32 body).toNat == crc),
+               ("clean_page_accepted", clean ≥ 0),
+               ("crc_changes", !changed || (Spec.Crc32.crc32 dmg).toNat != crc),
+               ("damage_reported", !changed || von < 0)]
+    | _, _, _, _, _, _ => .bad "pgdmg args"
   | _ => none
 
 end Driver.Ops.Crc
